@@ -24,5 +24,9 @@ Input(e) == IF "segs" \in DOMAIN e THEN Expand(e.segs) ELSE e["in"]
 \* F(cond, prop, clause): the empty set when the clause holds, else one failure
 F(cond, prop, clause) == IF cond THEN {} ELSE {<<prop, clause>>}
 
+\* an observer that caught a panic records only that; it is a totality failure whatever was being checked
+IsPanic(e) == e.op = "panic"
+PanicFail == {<<"C10", "panic">>}
+
 Report(l, row, fails) == \A f \in fails : PrintT(ToJson(<<"BAD", l, row, f[1], f[2]>>))
 =============================================================================
